@@ -755,6 +755,12 @@ func (e *sfEngine) oracle(op string, line string, v sfView, prev sfView, repBefo
 				// to one token per force-undelegation on this validator since (truncation leak, see above)
 				pre = "stake:drift>locks:slashed-refresh-excess:"
 				allow += c
+			} else if e.slashedVal[a.v] {
+				// the validator has been slashed at some point of this history (exchange rate != 1): slashing is not among the
+				// operations C11 quantifies over, so what happens to the STAKE there is an observation (counted under
+				// outside-quantifier.*), whatever its size — e.g. a refresh whose force-undelegation is rejected leaves the
+				// whole stake (Props/C11Refresh.refresh_burn_rejected_unbounded_witness)
+				pre = "stake:drift>locks:slashed-validator:"
 			}
 			bound := big.NewRat(allow, 1)
 			if e.slashedVal[a.v] {
